@@ -3,34 +3,34 @@ package main
 // Specification tables for E1/E8: obligations (facts required at sinks) and their evaluation.
 
 import (
-	"sort"
 	"fmt"
-	"os"
 	"go/types"
+	"os"
+	"sort"
 	"strings"
 )
 
 // Ob: in function Fn, every site matching the sink must carry the required clauses on every path.
 type Ob struct {
-	ID   string   // rule id, e.g. "E1.code.client-bound"
-	Fn   string   // FuncInfo name
-	P    []string // positional pattern-variable names: receiver first (methods), then parameters
-	Kind string   // "call" | "ret ok" | "ret fail" | "ret any" | "store" | "backedge" | "go"
-	Pat  string   // sink pattern (call pattern, ret(...), store(lhs, rhs), backedge(x), go(call))
-	Not  string   // optional: sites also matching this pattern are excluded
-	Nots []string // further exclusion patterns
-	Min  int      // minimum number of matching sites (default 1)
-	Max  int      // maximum (0 = unbounded)
-	Req  []string // clauses
-	Req0 string   // one more clause, evaluated first (readability of long binding patterns)
-	When []string // selector clauses: the obligation is about the path states of a matching site in which these hold
-	Opt  bool     // Min = 0 allowed
-	Forbid bool   // every matching site is a violation (expected count zero)
-	MutOK []string // parameters (names from P) that the function may legitimately rebind before the sink
-	Why  string
-	Only  bool    // kind ret with Pat: every return of that status must have the shape (the function computes nothing else)
-	Arity int     // when set: the obligation is one spelling for a function with that many parameters (receiver included); others count as unmatched
-	AltOf string  // obligations with the same AltOf are alternative spellings of one requirement: at least one of them must match a site
+	ID     string   // rule id, e.g. "E1.code.client-bound"
+	Fn     string   // FuncInfo name
+	P      []string // positional pattern-variable names: receiver first (methods), then parameters
+	Kind   string   // "call" | "ret ok" | "ret fail" | "ret any" | "store" | "backedge" | "go"
+	Pat    string   // sink pattern (call pattern, ret(...), store(lhs, rhs), backedge(x), go(call))
+	Not    string   // optional: sites also matching this pattern are excluded
+	Nots   []string // further exclusion patterns
+	Min    int      // minimum number of matching sites (default 1)
+	Max    int      // maximum (0 = unbounded)
+	Req    []string // clauses
+	Req0   string   // one more clause, evaluated first (readability of long binding patterns)
+	When   []string // selector clauses: the obligation is about the path states of a matching site in which these hold
+	Opt    bool     // Min = 0 allowed
+	Forbid bool     // every matching site is a violation (expected count zero)
+	MutOK  []string // parameters (names from P) that the function may legitimately rebind before the sink
+	Why    string
+	Only   bool   // kind ret with Pat: every return of that status must have the shape (the function computes nothing else)
+	Arity  int    // when set: the obligation is one spelling for a function with that many parameters (receiver included); others count as unmatched
+	AltOf  string // obligations with the same AltOf are alternative spellings of one requirement: at least one of them must match a site
 }
 
 var allGuars []*Guar
@@ -325,6 +325,34 @@ func evalOb(c *Ctx, e *e1, ob Ob) (nMatched int) {
 		for i := range s.states {
 			allIdx[i] = i
 		}
+		candCache := map[int][]*Term{}
+		candsOf := func(i int) []*Term {
+			if c, ok := candCache[i]; ok {
+				return c
+			}
+			st := s.term
+			cands := f.expandDefs(s.states[i], st)
+			if r := expandReturned(s.states[i], st); r != nil {
+				cands = append(cands, r)
+				cands = append(cands, f.expandDefs(s.states[i], r)...)
+			}
+			// definitions first, then the value the defining helper call returned on this path
+			for _, d := range append([]*Term{}, cands...) {
+				if r := expandReturned(s.states[i], d); r != nil {
+					cands = append(cands, r)
+				}
+			}
+			// a variable that equals a package-level value on this path (`return err` with eq(err, ErrX))
+			if r := expandVarEq(s.states[i], st); r != nil {
+				cands = append(cands, r)
+			}
+			if nf := normalForm(s.states[i], st); nf != nil {
+				cands = append(cands, nf)
+			}
+			cands = append(cands, rewriteClosure(s.states[i], st, 160)...)
+			candCache[i] = cands
+			return cands
+		}
 		if pat == nil {
 			variants = []variant{{base.clone(), allIdx}}
 		} else {
@@ -335,25 +363,7 @@ func evalOb(c *Ctx, e *e1, ob Ob) (nMatched int) {
 			} else {
 				byKey := map[string]int{}
 				for i := range s.states {
-					cands := f.expandDefs(s.states[i], st)
-					if r := expandReturned(s.states[i], st); r != nil {
-						cands = append(cands, r)
-						cands = append(cands, f.expandDefs(s.states[i], r)...)
-					}
-					// definitions first, then the value the defining helper call returned on this path
-					for _, d := range append([]*Term{}, cands...) {
-						if r := expandReturned(s.states[i], d); r != nil {
-							cands = append(cands, r)
-						}
-					}
-					// a variable that equals a package-level value on this path (`return err` with eq(err, ErrX))
-					if r := expandVarEq(s.states[i], st); r != nil {
-						cands = append(cands, r)
-					}
-					if nf := normalForm(s.states[i], st); nf != nil {
-						cands = append(cands, nf)
-					}
-					cands = append(cands, rewriteClosure(s.states[i], st, 160)...)
+					cands := candsOf(i)
 					for _, x := range cands {
 						nb := base.clone()
 						if unify(pat, x, nb) {
@@ -391,84 +401,105 @@ func evalOb(c *Ctx, e *e1, ob Ob) (nMatched int) {
 		}
 		siteCounted := false
 		for _, vr := range variants {
-		b := vr.b
-		excluded := false
-		for _, np := range nots {
-			nb := base.clone()
-			if unify(np, s.term, nb) {
-				excluded = true
-			}
-		}
-		if excluded {
-			continue
-		}
-		if kind == "ret" {
-			for i, op := range s.term.A {
-				b[fmt.Sprint("r", i)] = op
-			}
-		}
-		// choose the states this obligation is about
-		var states []*fstate
-		for _, i := range vr.idx {
-			st := s.states[i]
-			switch ob.Kind {
-			case "ret ok":
-				if !s.ok[i] {
-					continue
-				}
-			case "ret fail":
-				if s.ok[i] {
-					continue
+			b := vr.b
+			excluded := false
+			for _, np := range nots {
+				nb := base.clone()
+				if unify(np, s.term, nb) {
+					excluded = true
 				}
 			}
-			if len(when) > 0 {
-				if r := solve(st, when, b); !r.ok {
+			if excluded {
+				continue
+			}
+			if len(nots) > 0 && pat != nil {
+				// a state in which the sink receives a value of an excluded shape is not this obligation's business either
+				var keep []int
+				for _, i := range vr.idx {
+					hit := false
+					for _, x := range candsOf(i) {
+						for _, np := range nots {
+							if unify(np, x, base.clone()) {
+								hit = true
+							}
+						}
+					}
+					if !hit {
+						keep = append(keep, i)
+					}
+				}
+				if len(keep) == 0 {
 					continue
 				}
+				vr.idx = keep
 			}
-			states = append(states, st)
-		}
-		if len(states) == 0 {
-			continue
-		}
-		if ob.Forbid {
+			if kind == "ret" {
+				for i, op := range s.term.A {
+					b[fmt.Sprint("r", i)] = op
+				}
+			}
+			// choose the states this obligation is about
+			var states []*fstate
+			for _, i := range vr.idx {
+				st := s.states[i]
+				switch ob.Kind {
+				case "ret ok":
+					if !s.ok[i] {
+						continue
+					}
+				case "ret fail":
+					if s.ok[i] {
+						continue
+					}
+				}
+				if len(when) > 0 {
+					if r := solve(st, when, b); !r.ok {
+						continue
+					}
+				}
+				states = append(states, st)
+			}
+			if len(states) == 0 {
+				continue
+			}
+			if ob.Forbid {
+				if !siteCounted {
+					matched++
+					siteCounted = true
+				}
+				c.R.Find(Finding{Rule: ob.ID, Func: fi.Name, Construct: "forbidden " + ob.Kind + " " + headOf(s.term), Pos: c.P.Position(s.pos),
+					Msg: fmt.Sprintf("`%s` in %s matches the forbidden pattern `%s`%s", s.term, fi.Name, ob.Pat, whySuffix(ob.Why)), Ctl: fi.Ctl})
+				continue
+			}
 			if !siteCounted {
 				matched++
 				siteCounted = true
 			}
-			c.R.Find(Finding{Rule: ob.ID, Func: fi.Name, Construct: "forbidden " + ob.Kind + " " + headOf(s.term), Pos: c.P.Position(s.pos),
-				Msg: fmt.Sprintf("`%s` in %s matches the forbidden pattern `%s`%s", s.term, fi.Name, ob.Pat, whySuffix(ob.Why)), Ctl: fi.Ctl})
-			continue
-		}
-		if !siteCounted {
-			matched++
-			siteCounted = true
-		}
-		head := headOf(s.term)
-		ord[head]++
-		construct := fmt.Sprintf("%s %s#%d", ob.Kind, head, ord[head])
-		pos := c.P.Position(s.pos)
-		discharged := true
-		var how []string
-		for _, st := range states {
-			res := solve(st, clauses, b)
-			if !res.ok {
-				discharged = false
-				c.R.Find(Finding{Rule: ob.ID, Func: fi.Name, Construct: construct + " lacks " + res.failed, Pos: pos,
-					Msg:  fmt.Sprintf("sink `%s` in %s is reachable without `%s`%s", s.term, fi.Name, res.failed, whySuffix(ob.Why)),
-					Path: append([]string{"entry"}, append(st.trail(), "sink@"+pos)...), Ctl: fi.Ctl})
-				break
+			head := headOf(s.term)
+			ord[head]++
+			construct := fmt.Sprintf("%s %s#%d", ob.Kind, head, ord[head])
+			pos := c.P.Position(s.pos)
+			discharged := true
+			var how []string
+			for _, st := range states {
+				res := solve(st, clauses, b)
+				if !res.ok {
+					discharged = false
+					c.R.Find(Finding{Rule: ob.ID, Func: fi.Name, Construct: construct + " lacks " + res.failed, Pos: pos,
+						Msg:  fmt.Sprintf("sink `%s` in %s is reachable without `%s`%s", s.term, fi.Name, res.failed, whySuffix(ob.Why)),
+						Path: append([]string{"entry"}, append(st.trail(), "sink@"+pos)...), Ctl: fi.Ctl})
+					break
+				}
+				if how == nil {
+					how = res.used
+				}
 			}
-			if how == nil {
-				how = res.used
+			if len(how) > 12 {
+				how = how[:12]
 			}
-		}
-		if len(how) > 12 {
-			how = how[:12]
-		}
-		c.R.Obl(Obligation{Rule: ob.ID, Func: fi.Name, Construct: construct, Pos: pos, Discharged: discharged, Nontrivial: len(clauses) > 0 && len(how) > 0,
-			How: append([]string{fmt.Sprintf("%d path class(es); requires %s", len(states), strings.Join(ob.Req, " ; "))}, how...), Ctl: fi.Ctl})
-		c.R.CallSites++
+			c.R.Obl(Obligation{Rule: ob.ID, Func: fi.Name, Construct: construct, Pos: pos, Discharged: discharged, Nontrivial: len(clauses) > 0 && len(how) > 0,
+				How: append([]string{fmt.Sprintf("%d path class(es); requires %s", len(states), strings.Join(ob.Req, " ; "))}, how...), Ctl: fi.Ctl})
+			c.R.CallSites++
 		}
 	}
 	min := ob.Min
@@ -556,13 +587,11 @@ func e1Controls() []Ob {
 	return obs
 }
 
-
 // rebindable: parameter types that handlers conventionally rebind (ctx = ..., r = r.WithContext(ctx)).
 func rebindable(t types.Type) bool {
 	ts := typeStr(t)
 	return ts == "context.Context" || ts == "*http.Request"
 }
-
 
 // expandReturned: the term with every call of an interpreted helper replaced by the value recorded for it (eq(call, V)).
 func expandReturned(st *fstate, t *Term) *Term {
@@ -599,7 +628,6 @@ func expandReturned(st *fstate, t *Term) *Term {
 	}
 	return out
 }
-
 
 // expandVarEq: the term with every variable v replaced by G when the state holds eq(v, G) for a package-level variable
 // or constant G (never for other values: a variable "equal to" another local says nothing about what is returned).
@@ -665,7 +693,8 @@ func stateAlts(st *fstate) map[string][]*Term {
 	for _, k := range sortedKeys(st.facts) {
 		fc := st.facts[k]
 		switch {
-		case fc.S == "def" && len(fc.A) == 2 && fc.A[0].K == "var":
+		case fc.S == "def" && len(fc.A) == 2 && (fc.A[0].K == "var" || fc.A[0].K == "call" || fc.A[0].K == "res"):
+			// (a call / result term on the left: a returned helper local, renamed to the call that produced it)
 			alts[fc.A[0].Key()] = append(alts[fc.A[0].Key()], fc.A[1])
 		case fc.S == "def" && len(fc.A) == 3 && fc.A[0].K == "var":
 			alts[fc.A[0].Key()] = append(alts[fc.A[0].Key()], mk("res", fc.A[2].S, fc.A[1]))
@@ -739,7 +768,7 @@ func normalForm(st *fstate, t *Term) *Term {
 	fields := map[string][][2]*Term{}
 	for _, k := range sortedKeys(st.facts) {
 		fc := st.facts[k]
-		if fc.S == "eq" && len(fc.A) == 2 && fc.A[0].K == "sel" && len(fc.A[0].A) == 1 && fc.A[0].A[0].K == "var" {
+		if fc.S == "eq" && len(fc.A) == 2 && fc.A[0].K == "sel" && len(fc.A[0].A) == 1 && (fc.A[0].A[0].K == "var" || fc.A[0].A[0].K == "call" || fc.A[0].A[0].K == "res") {
 			x := fc.A[0].A[0].Key()
 			fields[x] = append(fields[x], [2]*Term{mk("const", fc.A[0].S), fc.A[1]})
 		}
@@ -795,7 +824,7 @@ func normalForm(st *fstate, t *Term) *Term {
 		}
 		changed = true
 		v := rec(as[0], depth+1, false)
-		if t.K == "var" {
+		if t.K == "var" || t.K == "call" || t.K == "res" {
 			if nl := newLit(v); nl != nil && len(fields[t.Key()]) > 0 {
 				v = nl
 			}
